@@ -49,9 +49,13 @@ def cmd_mutants(argv):
     only = [a for a in argv if not a.startswith("-")]
     res = {}
     bad = 0
-    for kind, expect in (("mutants", 1), ("benign", 0)):
-        for patch in sorted(glob.glob(os.path.join(VERIF, kind, "*.diff"))):
+    for kind, expect in (("mutants", 1), ("seeded", 1), ("benign", 0)):
+        pats = sorted(glob.glob(os.path.join(VERIF, kind, "*.diff"))) + \
+            sorted(glob.glob(os.path.join(VERIF, kind, "*", "patch.diff")))
+        for patch in pats:
             name = os.path.basename(patch)[:-5]
+            if name == "patch":
+                name = "seeded_" + os.path.basename(os.path.dirname(patch))
             if only and not any(o in name for o in only):
                 continue
             tree = scratch_tree(patch)
